@@ -53,7 +53,8 @@ func genJSONValue(r *RNG, depth int) any {
 	case 2:
 		return float64(r.Range(-1000, 1000))
 	case 3:
-		return []float64{0.5, -2.25, 1e10, 9007199254740992, -9007199254740992, 1e-3, 3.141592653589793}[r.Intn(7)]
+		// incl. whole numbers beyond the int64 range (a reader that turns whole floats into ints must not wrap them)
+		return []float64{0.5, -2.25, 1e10, 9007199254740992, -9007199254740992, 1e-3, 3.141592653589793, 1e19, -1e19, 9.3e18, 1.8446744073709552e19, 1e300, 4294967296}[r.Intn(13)]
 	case 4, 5:
 		return genString(r)
 	case 6:
